@@ -12,7 +12,7 @@ def write_if_changed(path, content):
         return True
     return False
 
-TRANSLATORS = ['walkerdb', 'uni2latex', 'textdb', 'stateinventory']
+TRANSLATORS = ['walkerdb', 'uni2latex', 'textdb', 'stateinventory', 'c08alphabet']
 
 def main(repo, outdir):
     res = {}
